@@ -786,7 +786,7 @@ func c18Oracle(c *oracleCtx) {
 func c17Oracle(c *oracleCtx) {
 	c.rule = "homogeneous string / int / float lists of length 1..6 over extreme values and duplicates, and lists of any kinds for Reverse: sorted, permutation of the multiset, same list object, idempotent; Reverse moves i to n-1-i; Sort on a wrong first element panics and leaves the list unchanged"
 	ints := []any{0, 1, -1, 2, math.MaxInt, math.MinInt, -2, math.MaxInt - 1, 1<<53 + 1, 1 << 53}
-	strs := []any{"", "a", "b", "é", "B", "aa"}
+	strs := []any{"", "a", "b", "é", "B", "aa", "\xff", "\xc3"}
 	flts := []any{0.0, math.Copysign(0, -1), 1.5, -1.5, math.Inf(1), math.Inf(-1), 1e300}
 	n := 0
 	for _, dom := range [][]any{ints, strs, flts} {
